@@ -66,12 +66,15 @@ func (o *signalHandler) addSignalUser(userID uint64, signalID, messageID uint32,
 		contextID: 0,
 	}
 
-	// refuse a known user id before anything is registered: all
-	// registrations of an object come from its mailbox goroutine,
-	// so nobody can add this id between the check and the append.
+	// refuse a user id this connection already uses, before anything
+	// is registered (user ids are chosen by the clients: two
+	// connections may pick the same one). All registrations of an
+	// object come from its mailbox goroutine, so nobody can add this
+	// id between the check and the append.
 	o.signalsMutex.Lock()
 	for _, user := range o.signals {
-		if user.userID == userID {
+		if user.userID == userID &&
+			user.context.EndPoint() == from.EndPoint() {
 			o.signalsMutex.Unlock()
 			return fmt.Errorf("user %d already exists", userID)
 		}
